@@ -40,8 +40,11 @@ import (
 )
 
 type op struct {
-	Kind string // append, send, current, setmax, purge, reopen, sleep
+	Kind string // append, send, send-window, current, setmax, purge, reopen, sleep
 	Size int
+	// send-window: blocks appended after the sender has found the queue
+	// exhausted and before it skips the exhausted segment
+	Sizes []int
 	Max  int64
 	Age  int // seconds
 	// processor mode
@@ -79,8 +82,26 @@ func genOp(t *rapid.T, label string, maxSeg int64, purge bool) op {
 			sz = 4 // the block id is embedded so that every block is unique
 		}
 		return op{Kind: "append", Size: sz}
-	case k < 14:
+	case k < 12:
 		return op{Kind: "send"}
+	case k < 14:
+		o := op{Kind: "send-window", Sizes: []int{}}
+		for j, n := 0, rapid.IntRange(0, 3).Draw(t, label+".wn"); j < n; j++ {
+			var sz int
+			switch rapid.IntRange(0, 3).Draw(t, fmt.Sprintf("%s.w%dk", label, j)) {
+			case 0:
+				sz = rapid.IntRange(4, 12).Draw(t, fmt.Sprintf("%s.w%d", label, j))
+			case 1:
+				sz = int(maxSeg) - 16 - rapid.IntRange(0, 3).Draw(t, fmt.Sprintf("%s.w%d", label, j))
+			default:
+				sz = rapid.IntRange(4, int(maxSeg)).Draw(t, fmt.Sprintf("%s.w%d", label, j))
+			}
+			if sz < 4 {
+				sz = 4
+			}
+			o.Sizes = append(o.Sizes, sz)
+		}
+		return o
 	case k < 15:
 		if rapid.IntRange(0, 2).Draw(t, label+".hk") == 0 {
 			return op{Kind: "current"}
@@ -115,7 +136,13 @@ func genPlan(t *rapid.T) interface{} {
 			case 6:
 				// a write that lands while the processor, having found the
 				// queue empty, is about to skip the exhausted segment
-				ops = append(ops, op{Kind: "write-in-empty-window", NPoints: rapid.IntRange(1, 3).Draw(t, fmt.Sprintf("op%d.np", i))})
+				// (one to three separate writes: the first may still fit the
+				// exhausted segment while a later one opens the next)
+				o := op{Kind: "write-in-empty-window", NPoints: rapid.IntRange(1, 3).Draw(t, fmt.Sprintf("op%d.np", i))}
+				for j, n := 0, rapid.IntRange(0, 2).Draw(t, fmt.Sprintf("op%d.more", i)); j < n; j++ {
+					o.Sizes = append(o.Sizes, rapid.IntRange(1, 5).Draw(t, fmt.Sprintf("op%d.np%d", i, j+1)))
+				}
+				ops = append(ops, o)
 			case 0, 1, 2:
 				ops = append(ops, op{Kind: "write", NPoints: rapid.IntRange(1, 5).Draw(t, fmt.Sprintf("op%d.np", i))})
 			case 3:
@@ -127,6 +154,10 @@ func genPlan(t *rapid.T) interface{} {
 			}
 		}
 		p.Phases = [][]op{ops}
+		// segment size of the processor's queue: the default (10 MiB: one
+		// segment for the whole run) or small enough for these writes to
+		// span several segments
+		p.MaxSeg = rapid.SampledFrom([]int64{0, 260, 400, 700}).Draw(t, "procseg")
 		p.Script = rapid.SliceOfN(rapid.SampledFrom([]string{"ok", "ok", "ok", "retry", "lostack", "reject"}), 40, 40).Draw(t, "script")
 		return p
 	}
@@ -406,13 +437,29 @@ func (r *qrunner) phase(dir string, depth int, m *qmodel, recovered *qimage, lab
 
 	// deliver mimics NodeProcessor.SendWrite: Current; on EOF advance (skip to
 	// the next segment); on another error truncate the corrupt block.
+	var appendBlock func(i int, size int)
+	// window: sizes of the blocks appended between the first io.EOF from
+	// Current and the call that skips the exhausted segment, which then is
+	// TrimExhausted as in NodeProcessor.SendWrite (nil: Advance, no window)
+	var window []int
 	deliver := func(i int, skipHeadOK bool, mayAppend *block) (delivered bool) {
 		// every attempt moves past at most one exhausted or empty segment (a
 		// refused over-size append leaves an empty segment behind), so the
 		// bound counts segments
-		for try, tries := 0, q.SegmentCount()+3; try < tries; try++ {
+		for try, tries := 0, q.SegmentCount()+3+len(window); try < tries; try++ {
 			b, err := q.Current()
 			if err == io.EOF {
+				if window != nil {
+					for _, sz := range window {
+						appendBlock(i, sz)
+						run.Probe("append-between-eof-and-trim")
+					}
+					window = window[:0]
+					curKind, curAdv = "advance", false
+					q.TrimExhausted()
+					curKind = ""
+					continue
+				}
 				curKind, curAdv = "advance", false
 				q.Advance()
 				curKind = ""
@@ -559,6 +606,43 @@ func (r *qrunner) phase(dir string, depth int, m *qmodel, recovered *qimage, lab
 	if depth < len(r.p.Phases) {
 		ops = r.p.Phases[depth]
 	}
+	appendBlock = func(i int, size int) {
+		r.next++
+		b := block{id: r.next, data: mkBlock(r.next, size), appended: time.Now()}
+		curApp, curKind = &b, "append"
+		bufferedPath := q.LimiterLen() >= 9 // with this writer: ten inside Append
+		err := q.Append(b.data)
+		curApp, curKind = nil, ""
+		switch {
+		case err == nil:
+			if bufferedPath {
+				b.buffered = true
+				run.Probe("append-on-buffered-path")
+			} else {
+				flushedAll() // an unbuffered append writes the whole buffer out
+			}
+			m.all = append(m.all, b)
+			m.written += int64(len(b.data)) + 8
+			run.Probe("append-accepted")
+		case errors.Is(err, hh.ErrQueueFull):
+			// legal only if the size limit can be the reason: even everything ever appended plus footers would exceed it
+			slack := int64(0)
+			if maybeApp != nil {
+				slack = int64(len(maybeApp.data)) + 8
+			}
+			if int64(8*(q.SegmentCount()+1))+m.written+slack+tornBytes+int64(len(b.data))+8 <= r.p.MaxSize {
+				fail("append-refused-without-reason", "", "%s op%d: ErrQueueFull although everything ever appended (%d bytes) plus this block (%d) fits max size %d", label, i, m.written, len(b.data), r.p.MaxSize)
+			}
+			run.Probe("append-refused-size-limit")
+		case errors.Is(err, hh.ErrSegmentFull):
+			if int64(len(b.data))+16 <= maxSeg {
+				fail("append-refused-without-reason", "", "%s op%d: ErrSegmentFull for a %d-byte block, segment limit %d", label, i, len(b.data), maxSeg)
+			}
+			run.Probe("append-refused-too-large")
+		default:
+			fail("append-failed", "", "%s op%d: Append(%d bytes): %v", label, i, len(b.data), err)
+		}
+	}
 	for i, o := range ops {
 		if run.Failed() {
 			return
@@ -568,42 +652,17 @@ func (r *qrunner) phase(dir string, depth int, m *qmodel, recovered *qimage, lab
 		run.Logf("%s op%d %s size=%d", label, i, o.Kind, o.Size)
 		switch o.Kind {
 		case "append":
-			r.next++
-			b := block{id: r.next, data: mkBlock(r.next, o.Size), appended: time.Now()}
-			curApp, curKind = &b, "append"
-			bufferedPath := q.LimiterLen() >= 9 // with this writer: ten inside Append
-			err := q.Append(b.data)
-			curApp, curKind = nil, ""
-			switch {
-			case err == nil:
-				if bufferedPath {
-					b.buffered = true
-					run.Probe("append-on-buffered-path")
-				} else {
-					flushedAll() // an unbuffered append writes the whole buffer out
-				}
-				m.all = append(m.all, b)
-				m.written += int64(len(b.data)) + 8
-				run.Probe("append-accepted")
-			case errors.Is(err, hh.ErrQueueFull):
-				// legal only if the size limit can be the reason: even everything ever appended plus footers would exceed it
-				slack := int64(0)
-				if maybeApp != nil {
-					slack = int64(len(maybeApp.data)) + 8
-				}
-				if int64(8*(q.SegmentCount()+1))+m.written+slack+tornBytes+int64(len(b.data))+8 <= r.p.MaxSize {
-					fail("append-refused-without-reason", "", "%s op%d: ErrQueueFull although everything ever appended (%d bytes) plus this block (%d) fits max size %d", label, i, m.written, len(b.data), r.p.MaxSize)
-				}
-				run.Probe("append-refused-size-limit")
-			case errors.Is(err, hh.ErrSegmentFull):
-				if int64(len(b.data))+16 <= maxSeg {
-					fail("append-refused-without-reason", "", "%s op%d: ErrSegmentFull for a %d-byte block, segment limit %d", label, i, len(b.data), maxSeg)
-				}
-				run.Probe("append-refused-too-large")
-			default:
-				fail("append-failed", "", "%s op%d: Append(%d bytes): %v", label, i, len(b.data), err)
-			}
+			appendBlock(i, o.Size)
 			checkEmpty(i, "append")
+		case "send-window":
+			pend := len(m.all) - m.head
+			window = append([]int{}, o.Sizes...)
+			ok := deliver(i, false, nil)
+			window = nil
+			if !ok && !run.Failed() && pendingReadable() > 0 {
+				fail("pending-block-not-delivered", "", "%s op%d: %d blocks pending but one send attempt per segment (+3) delivered nothing", label, i, pend)
+			}
+			checkEmpty(i, "advance")
 		case "send":
 			pend := len(m.all) - m.head
 			ok := deliver(i, false, nil)
@@ -765,6 +824,12 @@ func execProcessor(run *core.Run, p *plan) {
 			run.Fail("processor-open-failed", "", "Open: %v", err)
 			return nil
 		}
+		if p.MaxSeg > 0 {
+			if err := np.VerifSetMaxSegmentSize(p.MaxSeg); err != nil {
+				run.Fail("harness-error", "", "VerifSetMaxSegmentSize: %v", err)
+				return nil
+			}
+		}
 		return np
 	}
 	np := mk()
@@ -784,28 +849,36 @@ func execProcessor(run *core.Run, p *plan) {
 		run.Logf("op%d %s", i, o.Kind)
 		switch o.Kind {
 		case "write-in-empty-window":
-			var pts []models.Point
-			for j := 0; j < o.NPoints; j++ {
-				seq++
-				pt, _ := models.NewPoint("m", models.NewTags(map[string]string{"k": fmt.Sprint(seq)}), models.Fields{"v": int64(seq)}, time.Unix(0, int64(seq)))
-				pts = append(pts, pt)
+			var writes [][]models.Point
+			for _, n := range append([]int{o.NPoints}, o.Sizes...) {
+				var pts []models.Point
+				for j := 0; j < n; j++ {
+					seq++
+					pt, _ := models.NewPoint("m", models.NewTags(map[string]string{"k": fmt.Sprint(seq)}), models.Fields{"v": int64(seq)}, time.Unix(0, int64(seq)))
+					pts = append(pts, pt)
+				}
+				writes = append(writes, pts)
 			}
 			fired := false
-			var werr error
+			werrs := make([]error, len(writes))
 			verifhook.SetYield(func(ev string, args ...interface{}) {
 				if ev != "hh.sendwrite.eof" || fired {
 					return
 				}
 				fired = true
-				werr = np.WriteShard(pts)
+				for k, pts := range writes {
+					werrs[k] = np.WriteShard(pts)
+				}
 			})
 			time.Sleep(3 * time.Duration(cfg.RetryMaxInterval))
 			verifhook.SetYield(nil)
 			if fired {
 				run.Probe("write-in-empty-window")
-				if werr != nil {
-					run.Logf("op%d window write refused: %v", i, werr)
-				} else {
+				for k, pts := range writes {
+					if werrs[k] != nil {
+						run.Logf("op%d window write %d refused: %v", i, k, werrs[k])
+						continue
+					}
 					for _, pt := range pts {
 						b, _ := pt.MarshalBinary()
 						accepted = append(accepted, b)
@@ -940,6 +1013,8 @@ func describe(pl interface{}) interface{} {
 			switch o.Kind {
 			case "append":
 				ops = append(ops, fmt.Sprintf("append(%d)", o.Size))
+			case "send-window":
+				ops = append(ops, fmt.Sprintf("send-window(%v)", o.Sizes))
 			case "setmax":
 				ops = append(ops, fmt.Sprintf("setmax(%d)", o.Max))
 			case "purge", "sleep":
@@ -958,6 +1033,7 @@ func describe(pl interface{}) interface{} {
 		d["max_size"] = p.MaxSize
 	} else {
 		d["target_script"] = p.Script[:12]
+		d["max_segment"] = p.MaxSeg
 	}
 	return d
 }
